@@ -37,7 +37,7 @@ RULE = (
     'delays).  Systematic part: every permutation and outcome for depth <= 3 of the three chain adapters.  Non-trivial = '
     'depth >= 2 or a non-value outcome; distinct = distinct event-log digest.'
 )
-BUDGET = {'quick': (30000, 55), 'thorough': (2_000_000, 600)}
+BUDGET = {'quick': (100000, 55), 'thorough': (2_000_000, 600)}
 COMPONENTS = {
     'real': ['plumpy.futures.create_task / unwrap_kiwi_future / CancellableAction', 'plumpy.communications.plum_to_kiwi_future',
              'plumpy.processes.Process.message_receive / _schedule_rpc', 'kiwipy.Future / capture_exceptions',
